@@ -457,7 +457,7 @@ def run(tier, seed):
     C.build_cli()
     C.build_rt()
     work = C.fresh_dir("C20")
-    nprog = 56 if tier == "quick" else 1500
+    nprog = 56 if tier == "quick" else 700
     nprobe = 6 if tier == "quick" else 60
     try:
         C.build_probe()
